@@ -402,6 +402,7 @@ func (s *State) Tasks() []*Task {
 		}
 		res = append(res, t)
 	}
+	verifOrderTasks(res)
 	return res
 }
 
